@@ -69,7 +69,7 @@ def run(ctx):
         classify=classify,
         extra_trusted=[
             "harness/loader-shim: the loader's main.rs compiled unmodified as an rlib; driver passes strings through alloc_string/free_string like loader-core's alloc.ts, one fresh thread (= fresh thread-locals) per history, child process per batch, an abort is recorded as Trap at the call that did not return",
-            "oracles: parse_operation_document+resolve_operation_extensions called directly per source (parse_o); emit_js of a fresh loader instance given the same files (emit_o); both enter the Coq model as Section variables",
+            "oracles: parse_operation_document+resolve_operation_extensions called directly per source (parse_o); resolve_operation_imports called directly on the state's files, reduced to the definition/spread names of the resolved document (resolve_o, the model's staged emit); emit_js of a fresh loader instance given the same files (what holds is judged against, and what the staged emit must predict); all enter the Coq model as function arguments",
             "std HashMap / PathBuf modelled as association lists keyed by Path::components equality (C20's model of components/resolve_relative_path); HashMap iteration order left unspecified (required-files list compared as a multiset)",
             "memory ownership: ghost heap in the model (C19/Ghost.v, theorem C19_ghost_ownership) + valgrind memcheck and leak accounting on a sample of histories in both tiers; the real allocator is outside the proof",
         ],
